@@ -288,6 +288,7 @@ func checkC13(c *Check) {
 		c.Ob("R2", "exactly one bid message construction site", run.Pos(), false, "sites: "+itoa(nmsg))
 	}
 	c.notFoundClassifier(run)
+	c.inventoryClientRules("R4")
 }
 
 // notFoundClassifier (R1): the text pattern that turns a failed existing-bid query into "no bid yet" must single out
